@@ -58,6 +58,7 @@ pub fn gen(rng: &mut Rng) -> Prog {
     // next explicit origin in .dseg / .eseg (far enough apart that no piece reaches the next)
     let mut org_next: [i64; 2] = [0x200, 0x100];
     let mut well_known: Vec<&str> = vec!["xl", "xh", "yl", "yh", "zl", "zh"];
+    let mut part_names: Vec<&str> = vec!["ramend", "flashend", "sram_start", "sram_size", "e2end", "eepromend", "xramend", "pagesize", "int_vectors_size", "signature_000", "iostart", "ioend"];
     // one program in three begins with symbol lines that read the location counter, then moves on with `.org`:
     // a `.set` takes the position its line stands at, whatever origin follows
     if rng.chance(1, 3) {
@@ -127,8 +128,8 @@ pub fn gen(rng: &mut Rng) -> Prog {
             }
             // ---- definitions
             0 | 1 => {
-                // code label (early)
-                let name = names.fresh("lbl", rng);
+                // code label (early); under a selected part now and then a name the part files use for their figures
+                let name = if with_device && !part_names.is_empty() && rng.chance(1, 4) { part_names.remove(rng.usize(part_names.len())).to_string() } else { names.fresh("lbl", rng) };
                 if seg != Seg::Code {
                     seg = Seg::Code;
                     nodes.push(Node::Seg(seg));
